@@ -177,6 +177,9 @@ def _lint_file_worker(args: tuple[Path, Path, dict]) -> list[dict]:
         violations = orchestrator.lint_file(file_path)
         # Convert to dicts for pickling
         return [v.to_dict() for v in violations]
+    except ValueError:
+        # Configuration validation errors are user-facing, as in the sequential run
+        raise
     except Exception:
         logger.exception("Worker error processing file: %s", file_path)
         return []
@@ -501,6 +504,9 @@ class Orchestrator:  # thailint: ignore[srp]
         """Extract violations from a completed future, handling errors."""
         try:
             return [Violation.from_dict(d) for d in future.result()]
+        except ValueError:
+            # Configuration validation error raised in a worker: end the run as the sequential path does
+            raise
         except Exception:
             logger.exception("Error extracting violations from worker future")
             return []
